@@ -30,6 +30,7 @@ tvars == <<l, fails, nsig, ndemand, done>>
 Inf == 2000000000
 Eps == 1000              \* stamp truncation and timer granularity, microseconds
 Slack == 2000000         \* a signal is only demanded this long after the window
+CallLimit == 5000000     \* a Strobe/Terminate call not back after this long is a verdict
 
 SetMin(S) == CHOOSE x \in S : \A y \in S : x <= y
 SetMax(S) == CHOOSE x \in S : \A y \in S : x >= y
@@ -75,8 +76,14 @@ Ctx(r) ==
       noloss |-> \A k \in DOMAIN R : R[k].got \/ C31_NoLoss(OwedFor(k), r.w, Slack),
       demands |-> Cardinality({k \in DOMAIN R : R[k].got /\ R[k].t1 - R[k].t0 > r.w \div 2})]
 
+\* Strobe (a rendezvous with a loop that never blocks for long) and Terminate come back
+CallsReturn(r) ==
+  /\ \A k \in DOMAIN r.strobes : r.strobes[k].ret \/ r.strobes[k].t1 - r.strobes[k].t0 < CallLimit
+  /\ \A k \in DOMAIN r.term : r.term[k].ret \/ r.term[k].t1 - r.term[k].t0 < CallLimit
+
 CaseFails(i, r, c) ==
-       Chk(Want, i, "C31_Coalesces", c.coalesces)
+       Chk(Want, i, "C31_CallsReturn", CallsReturn(r))
+    \o Chk(Want, i, "C31_Coalesces", c.coalesces)
     \o Chk(Want, i, "C31_AtMostOne", C31_AtMostOne(c.buffered))
     \o Chk(Want, i, "C31_NoLoss", c.noloss)
 
